@@ -125,8 +125,11 @@ func limitShapes() []limitShape {
 			if n > 0 {
 				last = lang.Int(int64(70000 + n - 1))
 			}
-			fmt.Fprintf(&b, "];\nreturn [len(a), a[%d], a[0] == 70000 || len(a) == 0, \"tail\"];", n-1)
-			return b.String(), lang.Array(lang.Int(int64(n)), last, lang.Bool(true), lang.Str("tail"))
+			// ... and behind them constants still are what they were written as:
+			// a literal equals itself (met before, or new), differs from its neighbour
+			fmt.Fprintf(&b, "];\nreturn [len(a), a[%d], a[0] == 70000 || len(a) == 0, \"tail\", 123456 == 123456, \"tail\" == \"tail\", 2.5 == 2.5, 123456 != 123456, 70000 == 70000, 70000 == 70001, \"70000\" == \"70000\", 123456 < 123457, 0.5 + 0.5];", n-1)
+			return b.String(), lang.Array(lang.Int(int64(n)), last, lang.Bool(true), lang.Str("tail"), lang.Bool(true), lang.Bool(true), lang.Bool(true), lang.Bool(false),
+				lang.Bool(true), lang.Bool(false), lang.Bool(true), lang.Bool(true), lang.Float(1))
 		}},
 		{"hash-pairs", false, []int{0, 1, 2, 255, 256, 257, 4095, 4096, 4097}, func(n int) (string, lang.Value) {
 			var b strings.Builder
